@@ -548,6 +548,7 @@ def accept(repo):
 
 from . import frag_jp  # noqa: E402,F401  (registers fragment jp_report: tax_report_jp.py, C20)
 from . import frag_full_report  # noqa: E402,F401  (registers the full_report fragment)
+from . import frag_l6  # noqa: E402,F401  (registers the L6 fragments: inventory, l6_flags, imports)
 
 
 if __name__ == "__main__":
